@@ -403,6 +403,21 @@ func (a *appGenerator) makeCodegenApp() (GenApp, error) {
 	}
 	sort.Sort(genOps)
 
+	// the runtime router cleans route patterns (a trailing slash is dropped): two operations that
+	// end up with the same method and cleaned path would share one handler slot, the last one
+	// registered serving both
+	routes := make(map[string]string, len(genOps))
+	for _, op := range genOps {
+		if a.GenOpts.IsClient {
+			break // a client can address both; only the generated server merges them
+		}
+		route := op.Method + " " + path.Clean(op.Path)
+		if other, ok := routes[route]; ok {
+			return GenApp{}, fmt.Errorf("operations %q and %q are both routed as %s: paths that only differ by a trailing slash cannot be told apart by the router", other, op.Name, route)
+		}
+		routes[route] = op.Name
+	}
+
 	opsGroupedByPackage := make(map[string]GenOperations, len(genOps))
 	for _, operation := range genOps {
 		opsGroupedByPackage[operation.PackageAlias] = append(opsGroupedByPackage[operation.PackageAlias], operation)
